@@ -1,7 +1,7 @@
 (* C01 — replicas that exchanged everything show identical bugs. Property theorems only. *)
 From Coq Require Import List Arith NArith Lia Bool Sorting.Permutation.
 Import ListNotations.
-From GB Require Import Reach Sort Read Good Snoc World Sync SyncProps.
+From GB Require Import Reach Sort Read Good Snoc Mono World Sync SyncProps SyncInv SyncMerge SyncPush SyncQuiesce.
 
 Theorem C01_dag_convergence s h1 h2 : valid s h1 = true -> valid s h2 = true ->
   let P1 := packs_of s (reachl s h1) in let P2 := packs_of s (reachl s h2) in
@@ -23,3 +23,58 @@ Theorem C01_session_valid n evs sw : srun (sw0 n) evs = Some sw -> (N.of_nat (to
   forall h, (h < length (st (ww sw)))%nat -> valid (st (ww sw)) h = true.
 Proof. exact (session_valid n evs sw). Qed.
 Print Assumptions C01_session_valid.
+
+(* every state of every session satisfies the session invariant (one local head per entity, every local / tracking /
+   remote ref points to a readable commit of its entity, distinct keys) *)
+Theorem C01_session_invariant n evs sw : srun (sw0 n) evs = Some sw -> (N.of_nat (total_cost evs) + 1 <= jump_limit)%N -> sinv sw.
+Proof. exact (session_sinv n evs sw). Qed.
+Print Assumptions C01_session_invariant.
+
+(* one synchronisation round between two replicas a <> b -- for a list es covering every entity either of them or the
+   remote knows:   fetch a; merge a e (all e); push a;  fetch b; merge b e (all e); push b;  fetch a; merge a e (all e)
+   -- always runs to completion from any state satisfying the invariant (both pushes succeed), and afterwards the two
+   replicas have the SAME local refs (same entities, same head commits, hence the same bugs); every entity known anywhere
+   before is present, its head descends from every head a, b and the remote held for it, and what those heads read as
+   are sublists of what it reads as now *)
+Theorem C01_sync_quiesces sw a b es i1 i2 i3 : sinv sw -> a <> b ->
+  (a < length (reps (ww sw)))%nat -> (b < length (reps (ww sw)))%nat ->
+  (budget (ww sw) + N.of_nat (9 * length es) + 6 <= jump_limit)%N ->
+  (forall e, known sw a b e -> In e es) ->
+  exists sw', srun sw (round a b es i1 i2 i3) = Some sw' /\ sinv sw' /\
+    locals (ww sw') a = locals (ww sw') b /\
+    forall e, known sw a b e ->
+      exists h ops, alookup e (locals (ww sw') a) = Some h /\ alookup e (locals (ww sw') b) = Some h /\
+        read (st (ww sw')) h = Some ops /\
+        forall x, initial_head sw a b e x ->
+          reach (st (ww sw')) h x /\ forall ox, read (st (ww sw)) x = Some ox -> sublist ox ops.
+Proof. exact (sync_quiesces sw a b es i1 i2 i3). Qed.
+Print Assumptions C01_sync_quiesces.
+
+(* such a list always exists: the keys of the three ref maps *)
+Theorem C01_known_list_covers sw a b e : known sw a b e -> In e (known_list sw a b).
+Proof. exact (known_list_covers sw a b e). Qed.
+Print Assumptions C01_known_list_covers.
+
+(* replicas with the same local refs answer every read identically *)
+Theorem C01_same_refs_same_reads sw a b : sinv sw -> (a < length (reps (ww sw)))%nat -> (b < length (reps (ww sw)))%nat ->
+  locals (ww sw) a = locals (ww sw) b ->
+  forall e, exists o swa swb, sstep sw (ERead a e) = Some (swa, o) /\ sstep sw (ERead b e) = Some (swb, o).
+Proof. exact (sync_same_reads sw a b). Qed.
+Print Assumptions C01_same_refs_same_reads.
+
+(* non-vacuity: a reachable session in which the two replicas have diverged on a shared entity and each knows an entity
+   the other does not satisfies every hypothesis of C01_sync_quiesces; the round computes to identical refs *)
+Example C01_sync_round_example :
+  exists sw sw', srun (sw0 2) ex_prefix = Some sw /\
+    sinv sw /\ (0 < length (reps (ww sw)))%nat /\ (1 < length (reps (ww sw)))%nat /\
+    (budget (ww sw) + N.of_nat (9 * length (known_list sw 0 1)) + 6 <= jump_limit)%N /\
+    (forall e, known sw 0 1 e -> In e (known_list sw 0 1)) /\
+    locals (ww sw) 0 = [(0, 1); (5, 5)] /\ locals (ww sw) 1 = [(0, 3); (4, 4)] /\ remote sw = [(0, 0)] /\
+    srun sw (round 0 1 (known_list sw 0 1) ex_ids ex_ids ex_ids) = Some sw' /\
+    locals (ww sw') 0 = [(0, 6); (4, 4); (5, 5)] /\ locals (ww sw') 1 = [(0, 6); (4, 4); (5, 5)] /\
+    read (st (ww sw')) 6 = Some [100; 201; 101; 202]%N.
+Proof. eexists. eexists. split; [vm_compute; reflexivity|].
+  split; [eapply (session_sinv 2 ex_prefix); [vm_compute; reflexivity|vm_compute; discriminate]|].
+  split; [vm_compute; lia|]. split; [vm_compute; lia|]. split; [vm_compute; discriminate|].
+  split; [intros e; apply known_list_covers|].
+  repeat (split; [vm_compute; reflexivity|]). vm_compute; reflexivity. Qed.
